@@ -33,6 +33,7 @@ def run(ctx):
     check_numeq(ctx, prog)
     check_streq(ctx, prog)
     check_strrep(ctx, prog)
+    check_container_handles(ctx, prog)
     # the element lifetime rules of Array, on the instantiations Var's containers use (Array<Var>, Array<char>, the Dic storage):
     # removing / inserting children must construct and destroy each child exactly once
     n_l = C01.check_lifetime(ctx, prog)
@@ -904,3 +905,87 @@ def show_bytes(b):
 
 def prog_type_text(f, t):
     return T(f, t).get('s') or ''
+
+
+def check_container_handles(ctx, prog):
+    """C04.handles: a Var's array / dictionary is reached through a shared handle, so only the copy operations may give a Var a
+    handle on another Var's container, and a Var that is assigned a foreign container builds a fresh one.
+      (a) who may share: `_a.construct(*v._a)` / `_o.construct(*v._o)` - a handle copy of another Var's container - occurs only in
+          copy() and operator=(const Var&), the operations whose documented meaning is sharing (everything else - extend(), the
+          typed constructors - builds its own container and copies elements, so that later changes stay private);
+      (b) assignment from a typed container (`operator=(const Array<T>&)`, `operator=(const Dic<T>&)`): on every path the member
+          that is filled was constructed in this call before its first mutation (typestate over the CFG: construct -> fresh;
+          resize / append / set / element write while not fresh = the elements of a container that other Vars may share are
+          overwritten in place and its storage may move under them)."""
+    import cfg as cfgm
+    allowed = {('copy', '(const asl::Var &)'), ('operator=', '(const asl::Var &)')}
+    n_sites = 0
+    for f in prog.functions:
+        if f.get('cls') != 'asl::Var' or not f.get('body'):
+            continue
+        for e in fn_exprs(f):
+            if not (e.get('k') == 'call' and e.get('clsp') == 'asl::StaticSpace' and (e.get('pq') or '').endswith('construct') and e.get('a')):
+                continue
+            fld = strip_lv(e['obj']).get('f')
+            if fld not in ('_a', '_o'):
+                continue
+            src = strip(e['a'][0])
+            other = [w for w in walk_expr(src) if w.get('k') == 'mem' and w.get('f') == fld and not scansim_on_this(w)]
+            if not other:
+                continue
+            n_sites += 1
+            ctx.analysed(f)
+            role = '%s%s:handle on another Var\'s container only in the copy operations' % (f['n'], f['sig'])
+            ctx.check((f['n'], f['sig']) in allowed, 'C04.handles', f['pq'], role, fwhere(f, e.get('l')), '`%s` in a copy operation' % pe(e)[:60],
+                      '%s%s takes a handle on the argument\'s container (`%s`) instead of building its own: both Vars then share one storage - a later insertion through either changes the other and, when the storage grows, leaves the other dangling' % (f['n'], f['sig'], pe(e)[:60]))
+    ctx.floor('C04.handles container handle copies', n_sites, 2)
+    n = 0
+    MUT = ('resize', 'reserve', 'set', 'append', 'insert', 'remove', 'clear', 'operator<<', 'operator[]')
+    for f in prog.functions:
+        if f.get('cls') != 'asl::Var' or not f.get('body') or f['n'] != 'operator=' or len(f['params']) != 1:
+            continue
+        pt = T(f, f['params'][0]['t'])
+        to = T(f, pt.get('to')) if pt.get('ref') else {}
+        if to.get('recp') not in ('asl::Array', 'asl::Dic', 'asl::Map') or (to.get('rec') or '') in ('asl::Array<asl::Var>', 'asl::Dic<asl::Var>'):
+            continue
+        n += 1
+        ctx.analysed(f)
+        g = cfgm.CFG(f)
+        stale = []
+
+        def member_of(e):
+            o = strip_lv(e.get('obj') or {})
+            while o.get('k') == 'call' and o.get('op') in ('->', '*') and o.get('obj') is not None:
+                o = strip_lv(o['obj'])
+            while o.get('k') in ('un', 'paren', 'cast') and o.get('e') is not None:
+                o = strip_lv(o['e'])
+                while o.get('k') == 'call' and o.get('op') in ('->', '*') and o.get('obj') is not None:
+                    o = strip_lv(o['obj'])
+            return o.get('f') if o.get('k') == 'mem' and scansim_on_this(o) else None
+
+        def step(nd, st):
+            if nd.kind != 'ev' or nd.e is None or nd.e.get('k') != 'call':
+                return st
+            e = nd.e
+            fld = member_of(e)
+            if fld not in ('_a', '_o'):
+                return st
+            nm = (e.get('pq') or '').split('::')[-1]
+            if e.get('clsp') == 'asl::StaticSpace' and nm == 'construct':
+                return st | frozenset([fld])
+            if e.get('clsp') == 'asl::StaticSpace':
+                return st
+            if (nm in MUT or e.get('op') in ('[]', '<<')) and 'const' not in (e.get('sig') or '').split(')')[-1] and fld not in st:
+                stale.append((e.get('l', 0), pe(e)[:50]))
+            return st
+        reached, _ = cfgm.dataflow(g, frozenset(), step)
+        ctx.evaluations += sum(len(x) for x in reached.values())
+        role = 'operator=%s:the container that is filled was built in this call' % f['sig']
+        ctx.check(not stale, 'C04.handles', f['pq'], role, fwhere(f, stale[0][0] if stale else None), 'every mutation of the member follows its construct() on every path',
+                  'operator=%s can reach `%s` without having constructed a fresh container in this call: the elements of a container that other Vars may share are overwritten in place (they change too) and a longer array moves the storage under them' % (f['sig'], stale[0][1] if stale else ''))
+    ctx.floor('C04.handles typed container assignments', n, 2)
+
+
+def scansim_on_this(m):
+    import scansim
+    return scansim._on_this(m)
